@@ -1,4 +1,5 @@
 import DdoModel.ParSolver
+import DdoModel.ParSysExec
 import DdoModel.Proofs.ParSync
 import DdoModel.Engines.Seq
 /-! Driver engine `par`: trace validation of the parallel solver under the controlled scheduler.
@@ -9,9 +10,20 @@ import DdoModel.Engines.Seq
     expects, every call inside must be the model's, the shared state evolves by the model's functions,
     and the final `Completion`, bounds and `explored` must coincide.
     `phi`: C03 (optimum, exact), C04 (no deadlock, no crash, terminates), C05 / C02 (bounds and solution
-    after a cutoff). -/
+    after a cutoff).
+
+    **Link with the transition system `ParSys`** (the object of the theorems of `Props/C03b.lean`): for the runs
+    `ParSys` covers (no threshold cache) the validator keeps, next to its own state, a `ParSys.Sys Int` that
+    it advances by the executable step function `ParSys.Sys.exec` (`DdoModel/ParSysExec.lean`) with the
+    action(s) that correspond to the section just validated (`sysAdvance`).  The trace is rejected
+    (`D:parsys …`) if `exec` refuses an action, and after every section the shared records of the two states
+    must coincide (`ParSys.critAgree`: every field but `first_active_layer`) and every worker's program counter
+    must be the image of its `ParSys.WSt` (`wAgree`).  `exec` is proved sound for `ParSys.StepG`
+    (`Proofs/ParSysExecSound.lean`: `exec_sound`, `execRun_sound`), so every accepted cache-less trace *is* a
+    `Run` of `ParSys` from `Sys.init` that ends in the validator's final shared record. -/
 namespace Ddo.Engines
 open Ddo.Proto
+open Ddo.ParSys (Sys WSt Action)
 
 inductive CRes | cut | ok (exact : Bool)
 deriving DecidableEq
@@ -33,6 +45,7 @@ structure PSim where
   pcs : List WPc
   cfg : SCfg
   nbVars : Nat
+  sys : Option (Sys Int) := none      -- the `ParSys` state advanced by `Sys.exec` (runs without threshold cache)
 
 def setPc (s : PSim) (i : Nat) (p : WPc) : PSim := { s with pcs := s.pcs.set i p }
 
@@ -58,7 +71,9 @@ def takeSection (i : String) : List (List String) → List (List String) × List
     | [] => takeSection i r
 
 /-- `get_workload` of thread `i` against the entries recorded inside the section -/
-def simGetWorkload (s : PSim) (i : Nat) (ents : List (List String)) : Except String (ParCrit Int × WorkLoad Int) := do
+def simGetWorkload (s : PSim) (i : Nat) (ents : List (List String)) :
+    Except String (ParCrit Int × WorkLoad Int × List (SubP Int × Bool)) := do
+  -- third component: the nodes the fringe handed out, each with the cache's `must_explore` answer
   let c := s.c
   -- cache cleaning
   let fa' := cleanLoopPar s.nbVars c.base.openByLayer c.ongoingByLayer (s.nbVars + 1) c.base.firstActive
@@ -70,7 +85,7 @@ def simGetWorkload (s : PSim) (i : Nat) (ents : List (List String)) : Except Str
   let c := { c with base := { c.base with firstActive := fa' } }
   -- do we need to stop (tested first since fix D4)
   if c.base.abort then
-    if ents != [] then throw "get_workload: calls after Aborted" else return (c, .aborted)
+    if ents != [] then throw "get_workload: calls after Aborted" else return (c, .aborted, [])
   -- are we done?
   let (ents, done) ← (if c.ongoing == 0 then
       match ents with
@@ -80,14 +95,15 @@ def simGetWorkload (s : PSim) (i : Nat) (ents : List (List String)) : Except Str
       | _ => throw "get_workload: expected is_empty() for the completion test"
     else pure (ents, false) : Except String (List (List String) × Bool))
   if done then
-    if ents != [] then throw "get_workload: calls after Complete" else return (c.complete, .complete)
+    if ents != [] then throw "get_workload: calls after Complete" else return (c.complete, .complete, [])
   match ents with
   | ["FL", n] :: ents =>
     if n != toString c.base.fringe.length then throw s!"get_workload: fringe length {n}, model {c.base.fringe.length}"
     if c.base.fringe.isEmpty then
-      if ents != [] then throw "get_workload: calls after the empty-fringe test" else return (c, .wait)
+      if ents != [] then throw "get_workload: calls after the empty-fringe test" else return (c, .wait, [])
     -- pop loop
-    let rec loop (fuel : Nat) (c : ParCrit Int) (ents : List (List String)) : Except String (ParCrit Int × WorkLoad Int) := do
+    let rec loop (fuel : Nat) (c : ParCrit Int) (ents : List (List String)) (pops : List (SubP Int × Bool)) :
+        Except String (ParCrit Int × WorkLoad Int × List (SubP Int × Bool)) := do
       match fuel with
       | 0 => throw "pop loop fuel"
       | fuel + 1 =>
@@ -104,7 +120,7 @@ def simGetWorkload (s : PSim) (i : Nat) (ents : List (List String)) : Except Str
               let c := { c with base := { c.base with fringe := rest } }
               if nn.ub ≤ c.base.bestLb then
                 if ents != [["FC"]] then throw "get_workload: expected fringe.clear() after popping a node below the incumbent"
-                return ({ c with base := { c.base with fringe := [], openByLayer := c.base.openByLayer.map (fun _ => 0) } }, .starvation)
+                return ({ c with base := { c.base with fringe := [], openByLayer := c.base.openByLayer.map (fun _ => 0) } }, .starvation, pops ++ [(nn, true)])
               match ents with
               | e :: ents =>
                 match splitAt ">" e with
@@ -115,8 +131,8 @@ def simGetWorkload (s : PSim) (i : Nat) (ents : List (List String)) : Except Str
                     | [["CU", st, d, v, ex]] =>
                       if st != toString nn.state || d != toString nn.depth || v != toString nn.value || ex != "1" then throw "get_workload: pop-time threshold write differs"
                       match c.take i nn with
-                      | some c' => return (c', .item nn)
-                      | none => return (c.takeCrash, .crash)
+                      | some c' => return (c', .item nn, pops ++ [(nn, true)])
+                      | none => return (c.takeCrash, .crash, pops ++ [(nn, true)])
                     | _ => throw "get_workload: expected the pop-time threshold write (explored = true)"
                   else
                     match decLayer c.base.openByLayer nn.depth with
@@ -127,14 +143,14 @@ def simGetWorkload (s : PSim) (i : Nat) (ents : List (List String)) : Except Str
                       | ["FL", n] :: ents =>
                         if n != toString c.base.fringe.length then throw "get_workload: fringe length (skip loop)"
                         if c.base.fringe.isEmpty then
-                          if ents != [] then throw "get_workload: calls after Starvation" else return (c, .starvation)
-                        loop fuel c ents
+                          if ents != [] then throw "get_workload: calls after Starvation" else return (c, .starvation, pops ++ [(nn, false)])
+                        loop fuel c ents (pops ++ [(nn, false)])
                       | _ => throw "get_workload: expected is_empty() after a node refused by the cache"
                 | _ => throw s!"get_workload: expected must_explore, tape has {e}"
               | [] => throw "get_workload: section ended after a pop"
         | e :: _ => throw s!"get_workload: expected pop, tape has {e}"
         | [] => throw "get_workload: section ended before a pop"
-    loop 100000 c ents
+    loop 100000 c ents []
   | _ => throw "get_workload: expected is_empty()"
 
 def parseDC (e : List String) : Option (Nat × Nat × TSub × Int × CRes) :=
@@ -149,17 +165,119 @@ def parseDC (e : List String) : Option (Nat × Nat × TSub × Int × CRes) :=
     pure ((← nat? ct), (← nat? w), t, lb, r)
   | _ => none
 
-/-- one marker and what follows it -/
-def simStep (s : PSim) (i : Nat) (label : String) (ents : List (List String)) : Except String PSim := do
+/-! ### the link with `ParSys`: actions of a section, lock-step execution by `Sys.exec` -/
+
+/-- the first section of worker `w` in what follows: its label, its entries, the tape after it -/
+def nextSection (w : String) : List (List String) → Option (String × List (List String) × List (List String))
+  | [] => none
+  | e :: r =>
+    match e with
+    | [w', "@", label] => if w' == w then (let (a, b) := takeSection w r; some (label, a, b)) else nextSection w r
+    | _ => nextSection w r
+
+/-- The diagram a successful compilation of worker `w` produced, as `ParSys` wants it (`DDOut`: the whole answer
+    at once).  The tape reveals it piecewise: the `is_exact` flag with the `DC` entry, `best_exact_value()` /
+    `best_exact_solution()` inside the worker's next section (`update_best`: `DV`, and `DS` iff improving) and,
+    for a relaxed diagram that is not exact, the cut-set inside the one after (`enqueue_cutset`: `DD`).
+    `ahead` is the tape after the compilation.  (A run that stops before those sections never uses the missing
+    parts; the validator's own replay of `update_best` / `enqueue_cutset` and the comparison of the shared
+    records after each of them check that what was assembled here is what the solver then used.) -/
+def aheadOut (w : String) (ex relaxed : Bool) (ahead : List (List String)) : DDOut Int :=
+  match nextSection w ahead with
+  | some ("update_best", ["DV", v] :: more, ahead') =>
+    let sol := match more with
+      | ("DS" :: sol) :: _ => if sol == ["none"] then none else if sol == ["e"] then some [] else (ints? sol).map parseDecs
+      | _ => none
+    let cs := if relaxed && !ex then
+        (match nextSection w ahead' with
+         | some ("enqueue_cutset", ("DD" :: k :: rest) :: _, _) =>
+           (((nat? k).bind (fun k => parseTSubs k rest)).getD []).map TSub.toSubP
+         | _ => [])
+      else []
+    { isExact := ex, bestExact := v.toInt?, bestExactSol := sol, cutset := cs }
+  | _ => { isExact := ex, bestExact := none, bestExactSol := none, cutset := [] }
+
+/-- the program counter of the validator is the image of the worker state of `ParSys` -/
+def wAgree : WPc → WSt Int → Bool
+  | .notStarted, .idle | .idle, .idle | .waiting, .waiting | .exiting, .done | .gone, .done => true
+  | .crashedW, .crashed _ => true
+  | .readLb1 n, .readR m => n == m
+  | .compR n lb, .compR m lb' => n == m && lb == lb'
+  | .upd1 n ex, .updR m _ o => n == m && ex == o.isExact
+  | .abortS n, .abortS m => n == m
+  | .readLb2 n, .readX m => n == m
+  | .compX n lb, .compX m lb' => n == m && lb == lb'
+  | .upd2 n ex, .updX m _ o => n == m && ex == o.isExact
+  | .enq n, .enq m _ _ => n == m
+  | .fin n te, .fin m te' => n == m && te == te'
+  | _, _ => false
+
+def wsAgree : List WPc → List (WSt Int) → Bool
+  | [], [] => true
+  | p :: ps, w :: ws => wAgree p w && wsAgree ps ws
+  | _, _ => false
+
+/-- which fields of the two shared records differ (diagnostic) -/
+def critDiff (a b : ParCrit Int) : String :=
+  let f := fun (n : String) (ok : Bool) => if ok then "" else " " ++ n
+  f "fringe" (a.base.fringe == b.base.fringe) ++ f "best_lb" (a.base.bestLb == b.base.bestLb) ++
+  f "best_ub" (a.base.bestUb == b.base.bestUb) ++ f "best_sol" (a.base.bestSol == b.base.bestSol) ++
+  f "open_by_layer" (a.base.openByLayer == b.base.openByLayer) ++ f "explored" (a.base.explored == b.base.explored) ++
+  f "abort" (a.base.abort == b.base.abort) ++ f "crashed" (a.base.crashed == b.base.crashed) ++
+  f "ongoing" (a.ongoing == b.ongoing) ++ f "ongoing_by_layer" (a.ongoingByLayer == b.ongoingByLayer) ++
+  f "upper_bounds" (a.upperBounds == b.upperBounds)
+
+/-- why `Sys.exec` refused (diagnostic only: the decision is `Sys.exec`'s) -/
+def execWhy (y : Sys Int) (i : Nat) (a : Action Int) : String :=
+  let w := match y.ws[i]? with | some w => w.name | none => "absent"
+  let base := s!"action {a.name} refused, worker state {w}"
+  let pop := fun (N : SubP Int) =>
+    if y.crit.base.abort then base ++ " (abort flag up)"
+    else if !(y.crit.base.fringe.contains N) then base ++ " (the popped node is not in the fringe of ParSys)"
+    else if (ParSys.popMax? y.crit.base.fringe N).isNone then base ++ s!" (PopMax fails: the popped node, ub {N.ub}, does not carry the largest bound of the fringe)"
+    else base ++ " (the pop loop / take bookkeeping of ParSys answers differently)"
+  match a with
+  | .gwStarve N => pop N
+  | .gwItem N => pop N
+  | .gwCrash N => pop N
+  | .abort top => if !(ParSys.abortTop? y.crit.base.fringe top) then base ++ " (AbortTop fails)" else base
+  | _ => base
+
+def execActs (dedup : Bool) (y : Sys Int) (i : Nat) : List (Action Int) → Except String (Sys Int)
+  | [] => .ok y
+  | a :: r =>
+    match y.exec dedup i a with
+    | some y' => execActs dedup y' i r
+    | none => .error (execWhy y i a)
+
+/-- advance the `ParSys` state by the actions of the section just validated (`s` is the validator's state *after*
+    the section, still carrying the `ParSys` state from before it) and compare -/
+def sysAdvance (s : PSim) (i : Nat) (label : String) (acts : List (Action Int)) : Except String PSim :=
+  match s.sys with
+  | none => .ok s
+  | some y =>
+    match execActs s.cfg.nodup y i acts with
+    | .error e => .error s!"D:parsys worker {i}, section {label}: {e}"
+    | .ok y' =>
+      if !(ParSys.critAgree s.c y'.crit) then
+        .error s!"D:parsys worker {i}, section {label}: the shared record of ParSys differs from the validator's in:{critDiff s.c y'.crit}"
+      else if !(wsAgree s.pcs y'.ws) then
+        .error s!"D:parsys worker {i}, section {label}: the worker states of ParSys are not those of the validator"
+      else .ok { s with sys := some y' }
+
+/-- one marker and what follows it: the new state, and the `ParSys` actions the section amounts to
+    (`ahead`: the tape after the section, read only to assemble the outcome of a compilation, `aheadOut`) -/
+def simStep (s : PSim) (i : Nat) (label : String) (ents ahead : List (List String)) : Except String (PSim × List (Action Int)) := do
   let pc := s.pcs[i]?.getD .gone
   let widthOf := fun (n : SubP Int) => s.cfg.w.eval n.path.length
-  -- a compilation recorded right after `read_lb`
-  let afterRead := fun (s : PSim) (n : SubP Int) (lb : Int) (relaxed : Bool) (ents : List (List String)) => do
+  let tracked := s.sys.isSome
+  -- a compilation recorded right after `read_lb` (`pre`: the action of the read itself, if this is its section)
+  let afterRead := fun (s : PSim) (n : SubP Int) (lb : Int) (relaxed : Bool) (ents : List (List String)) (pre : List (Action Int)) => do
     if !relaxed && n.ub ≤ lb then
-      if ents != [] then throw "process_one_node: calls after the node was found below the incumbent" else pure (setPc s i (.fin n false))
+      if ents != [] then throw "process_one_node: calls after the node was found below the incumbent" else pure (setPc s i (.fin n false), pre)
     else
       match ents with
-      | [] => pure (setPc s i (if relaxed then .compX n lb else .compR n lb))     -- the compilation is reported later (scheduling points inside it)
+      | [] => pure (setPc s i (if relaxed then .compX n lb else .compR n lb), pre)     -- the compilation is reported later (scheduling points inside it)
       | [e] =>
         match parseDC e, widthOf n with
         | some (ct, w, t, lbT, r), some width =>
@@ -168,43 +286,51 @@ def simStep (s : PSim) (i : Nat) (label : String) (ents : List (List String)) : 
           if !(subEq n t) then throw "compile: residual differs from the node in hand"
           if lbT != lb then throw s!"compile: best_lb {lbT}, the worker read {lb}"
           match r with
-          | .cut => pure (setPc s i (.abortS n))
-          | .ok ex => pure (setPc s i (if relaxed then .upd2 n ex else .upd1 n ex))
+          | .cut => pure (setPc s i (.abortS n), pre ++ [if relaxed then Action.compileX .cutoff else Action.compileR .cutoff])
+          | .ok ex =>
+            let o : DDOut Int := if tracked then aheadOut ("w" ++ toString i) ex relaxed ahead
+              else { isExact := ex, bestExact := none, bestExactSol := none, cutset := [] }
+            pure (setPc s i (if relaxed then .upd2 n ex else .upd1 n ex), pre ++ [if relaxed then Action.compileX (.ok o) else Action.compileR (.ok o)])
         | _, _ => throw "compile: unreadable entry or width heuristic failure"
       | _ => throw s!"process_one_node: expected exactly one compilation after read_lb, tape has {ents}"
   match label, pc with
-  | "start", .notStarted => if ents != [] then throw "calls before the first section" else pure (setPc s i .idle)
-  | "cache_get", .compR n lb => if ents == [] then pure s else afterRead s n lb false ents
-  | "cache_upd", .compR n lb => if ents == [] then pure s else afterRead s n lb false ents
-  | "cache_get", .compX n lb => if ents == [] then pure s else afterRead s n lb true ents
-  | "cache_upd", .compX n lb => if ents == [] then pure s else afterRead s n lb true ents
+  | "start", .notStarted => if ents != [] then throw "calls before the first section" else pure (setPc s i .idle, [])
+  | "cache_get", .compR n lb => if ents == [] then pure (s, []) else afterRead s n lb false ents []
+  | "cache_upd", .compR n lb => if ents == [] then pure (s, []) else afterRead s n lb false ents []
+  | "cache_get", .compX n lb => if ents == [] then pure (s, []) else afterRead s n lb true ents []
+  | "cache_upd", .compX n lb => if ents == [] then pure (s, []) else afterRead s n lb true ents []
   | "get_workload", .idle =>
-    let (c, wl) ← simGetWorkload s i ents
+    let (c, wl, pops) ← simGetWorkload s i ents
     let s := { s with c := c }
+    -- `ParSys` has no threshold cache: exactly one pop, explored
+    let one : Except String (SubP Int) := match pops with
+      | [(N, true)] => .ok N
+      | _ => if tracked then .error s!"D:parsys worker {i}, section get_workload: {pops.length} pops / a node refused by the cache — outside ParSys (no threshold cache)"
+             else .ok { state := 0, value := 0, path := [], ub := 0, depth := 0 }
     match wl with
-    | .complete => pure (setPc s i .exiting)
-    | .aborted => pure (setPc s i .exiting)
-    | .wait => pure (setPc s i .waiting)
-    | .starvation => pure (setPc s i .idle)
-    | .item n => pure (setPc s i (.readLb1 n))
-    | .crash => pure (setPc s i .crashedW)
-  | "read_lb", .readLb1 n => afterRead s n s.c.readLb false ents
-  | "read_lb", .readLb2 n => afterRead s n s.c.readLb true ents
+    | .complete => pure (setPc s i .exiting, [.gwComplete])
+    | .aborted => pure (setPc s i .exiting, [.gwAborted])
+    | .wait => pure (setPc s i .waiting, [.gwWait])
+    | .starvation => let N ← one; pure (setPc s i .idle, [.gwStarve N])
+    | .item n => let N ← one; pure (setPc s i (.readLb1 n), [.gwItem N])
+    | .crash => let N ← one; pure (setPc s i .crashedW, [.gwCrash N])
+  | "read_lb", .readLb1 n => afterRead s n s.c.readLb false ents [.readLbR]
+  | "read_lb", .readLb2 n => afterRead s n s.c.readLb true ents [.readLbX]
   | "update_best", .upd1 n ex =>
     let (b, rest) ← readUpdate ents s.c.base
     if rest != [] then throw "update_best: extra calls"
     let s := { s with c := { s.c with base := b } }
-    pure (setPc s i (if ex then .fin n false else .readLb2 n))
+    pure (setPc s i (if ex then .fin n false else .readLb2 n), [.updateR])
   | "update_best", .upd2 n ex =>
     let (b, rest) ← readUpdate ents s.c.base
     if rest != [] then throw "update_best: extra calls"
     let s := { s with c := { s.c with base := b } }
-    pure (setPc s i (if ex then .fin n false else .enq n))
+    pure (setPc s i (if ex then .fin n false else .enq n), [.updateX])
   | "enqueue_cutset", .enq n =>
     let (b, rest) ← readEnqueue ents s.cfg.nodup s.c.base n.ub
     if rest != [] then throw "enqueue_cutset: extra calls"
     if b.crashed then throw "enqueue_cutset: open_by_layer index out of range in the model"
-    pure (setPc { s with c := { s.c with base := b } } i (.fin n false))
+    pure (setPc { s with c := { s.c with base := b } } i (.fin n false), [.enqueue])
   | "abort_search", .abortS n =>
     match ents with
     | [("FO" :: pt), ["FC"], ["CC"]] =>
@@ -216,7 +342,7 @@ def simStep (s : PSim) (i : Nat) (label : String) (ents : List (List String)) : 
             else if s.c.base.fringe.any (fun y => y.ub > t.ub) then throw "abort_search: popped node does not carry the largest bound of the fringe"
             else pure (some t.ub)
           | none => throw "abort_search: unreadable pop" : Except String (Option Int))
-      pure (setPc { s with c := s.c.abortSearch n.ub top } i (.fin n true))
+      pure (setPc { s with c := s.c.abortSearch n.ub top } i (.fin n true), [.abort top])
     | _ => throw "abort_search: expected fringe.pop ; fringe.clear ; cache.clear"
   | "notify_finished", .fin n thenExit =>
     if ents != [] then throw "notify_finished: unexpected calls"
@@ -224,7 +350,7 @@ def simStep (s : PSim) (i : Nat) (label : String) (ents : List (List String)) : 
     | none => throw "notify_finished: the model panics (ongoing underflow / index out of range)"
     | some c =>
       let pcs := s.pcs.map (fun p => match p with | .waiting => .idle | p => p)
-      pure (setPc { s with c := c, pcs := pcs } i (if thenExit then .exiting else .idle))
+      pure (setPc { s with c := c, pcs := pcs } i (if thenExit then .exiting else .idle), [.notify])
   | l, _ => throw s!"worker {i}: section {l} is not what its program counter expects"
 
 def simPar (fam : Fam) (cfg : SCfg) (threads builtWith : Nat) (tape : List (List String)) : Except String PSim := do
@@ -234,7 +360,9 @@ def simPar (fam : Fam) (cfg : SCfg) (threads builtWith : Nat) (tape : List (List
   match tape with
   | ["w-1", "CI"] :: ("w-1" :: "FP" :: pt) :: tape =>
     if parseTSub pt != some ⟨P.init, 0, P.initVal, iMax, 0⟩ then throw "root node differs"
-    let s0 : PSim := { c := c0, pcs := List.replicate threads .notStarted, cfg := cfg, nbVars := P.nbVars }
+    -- `ParSys` covers the runs without threshold cache: there its initial state `Sys.init` is advanced in lock-step
+    let y0 : Option (Sys Int) := if cfg.cache then none else some (Sys.init P cfg.primal cfg.nodup threads)
+    let s0 : PSim := { c := c0, pcs := List.replicate threads .notStarted, cfg := cfg, nbVars := P.nbVars, sys := y0 }
     let rec go (fuel : Nat) (s : PSim) (tape : List (List String)) : Except String PSim := do
       match fuel with
       | 0 => throw "trace fuel"
@@ -246,10 +374,12 @@ def simPar (fam : Fam) (cfg : SCfg) (threads builtWith : Nat) (tape : List (List
           | [w, "@", label] =>
             let i := (w.drop 1).toNat!
             let (ents, rest') := takeSection w rest
-            let s' ← simStep s i label ents
+            let (s', acts) ← simStep s i label ents rest'
             -- C04: the section is invisible to the synchronisation skeleton or exactly one of its steps, and the invariant holds
             if !(ParSync.stepOrStutter (absSt s) (absSt s') i) then throw s!"worker {i}, section {label}: not a step of the synchronisation skeleton ParSync"
             if !(ParSync.invB (absSt s')) then throw s!"worker {i}, section {label}: the bookkeeping invariant of ParSync is violated"
+            -- ParSys: the section is the step(s) `Sys.exec` performs, and the two states still correspond
+            let s' ← sysAdvance s' i label acts
             go fuel s' rest'
           | [w, "WAIT"] =>
             let i := (w.drop 1).toNat!
@@ -305,9 +435,10 @@ def parEngine (c i : List String) : Option Res := do
             let ok := b2s mex == ex && mval == value && s.c.base.bestLb == lb && s.c.base.bestUb == ub && s.c.base.explored == explored
             (ok, if ok then "" else "final state differs", s!"{b2s mex} {optInt mval} {s.c.base.bestLb} {s.c.base.bestUb} {s.c.base.explored}")
         let interrupted := ex == "0"
-        let pf := phiSolver fam (cfg.kind == 2) cfg.primal interrupted (ex == "1") value lb ub sol
+        let pf := phiSolver fam (cfg.kind == 2) cfg.primal interrupted (ex == "1") value lb ub sol cfg.stopAt.isSome
         -- the solver-level clauses belong to C03 when uninterrupted
         let pf := pf.map (fun s => if s.startsWith "C01:" then "C03:" ++ (s.drop 4).toString else s)
+        let pf := withFeatureFails cfg.cache fam.domRule.isSome pf
         fails := pf ++ fails
         pure { agree := agree, phi := fails.isEmpty, model := ms, note := failNote fails ++ (if agree then "" else " TRACE: " ++ why) }
       | _ =>
